@@ -98,6 +98,9 @@ let dump_header (h : M.header) =
   pr "HL%s\n" (String.concat "" (List.map (fun e -> " " ^ hexs e) h.M.h_evlab))
 
 let with_inv = ref (try Sys.getenv "EZ_INV" = "1" with Not_found -> false)
+(* the decision predicates of Proofs_Decide.v: present only in the build made from ExtractX.v (lib/build.py swaps this line) *)
+let ls_hook : (M.state -> bool * bool * bool list) option = None
+let with_ls = ref (try Sys.getenv "EZ_LS" = "1" with Not_found -> false)
 let dump_all (s : M.state) =
   dump_header s.M.hdr;
   let p = s.M.pro in
@@ -114,6 +117,10 @@ let dump_all (s : M.state) =
       (b r.M.r_subframes) (b r.M.r_analogs_hdr) (b r.M.r_analogs_meas) (b r.M.r_analogs_frames) (b r.M.r_label_counts) (b r.M.r_label_order);
     pr "T %s\n" (b (M.mt_b s.M.groups))
   end;
+  (if !with_ls then match ls_hook with
+    | Some f -> let (a, c, fl) = f s in let b x = if x then "1" else "0" in
+      pr "L %s %s %s\n" (b a) (b c) (String.concat "" (List.map b fl))
+    | None -> ());
   pr "E\n"
 
 (* ---------- frame literals ---------- *)
@@ -319,6 +326,11 @@ let run_case (lines : string list) =
             | _ -> Buffer.add_string b " x")
          done;
          pr "%s\n" (Buffer.contents b)
+       | "mk.self" ->
+         let k = tk_int tk in let j = tk_int tk in let _how = next tk in
+         if j >= k then pr "throw out_of_range\n" else begin
+           let l = String.concat "" (List.init k (fun i -> " " ^ string_of_int i)) ^ " " ^ string_of_int j in
+           pr "ok%s |%s |%s\n" l l l end
        | "h2u" -> let b = tk_str tk in pr "ok %s\n" (sz (M.hex2uint b))
        | "h2i" -> let b = tk_str tk in pr "ok %s\n" (sz (M.hex2int b))
        | "h2sweep" ->
